@@ -3,3 +3,5 @@ import NutsModel.Thm.C07
 import NutsModel.Thm.C01
 import NutsModel.Thm.C03
 import NutsModel.Thm.Sched
+import NutsModel.Thm.C17
+import NutsModel.Thm.C01Refine
